@@ -2,6 +2,8 @@ import Ptk.Proto
 import Ptk.Model.C17
 import Ptk.Model.C17Buf
 import Ptk.Model.C17Flush
+import Ptk.Model.C17Paste
+import Ptk.Model.C17Store
 open Ptk Ptk.Py Ptk.Proto Ptk.C17
 
 /-! Line protocol of the C17 driver.
@@ -74,16 +76,20 @@ namespace B
 open Ptk.C17.Buf
 
 abbrev BSt := Buf.St Emacs.S
-def T := Emacs.tbl
+def T (v : Nat) := Emacs.tblV v
 def flushCode : Nat := 0x110000 + 998
 
 def encQK : QK → String
   | some k => encKey k
   | none => toString flushCode
 
-/-- how the application ended: the abort handler (c-c) was called, or an accepting one -/
+/-- how the application ended: by the abort handler (c-c → KeyboardInterrupt: -2), by c-d on an
+    empty buffer (EOFError: -5), or by an accepting handler (-1) -/
 def kindOf (tr : List Disp) : String :=
   if tr.any (fun d => match d with
+      | .call ks ex => ex && ks.getLast? == some (Key.other Ed.kCtrlD)
+      | .drop _ => false) then "-5"
+  else if tr.any (fun d => match d with
       | .call ks _ => ks.getLast? == some Key.abort
       | .drop _ => false) then "-2" else "-1"
 
@@ -95,35 +101,35 @@ def showB (s : BSt) : String :=
   let arg : String := if !s.running then "-" else match s.kp.arg with | none => "N" | some a => toString a
   s!"run={encBool s.running} done={d} buf={cur} arg={arg} kb={encKeys s.kp.buffer} q={encList encQK s.kp.queue} ta={encList encQK s.typeahead} res={encList encResB s.results}"
 
-def startEvB (s : BSt) : BSt :=
+def startEvB (v : Nat) (s : BSt) : BSt :=
   if s.running then s else
-  let s1 := Buf.step T s .start
-  if s1.kp.done then Buf.step T s1 .finish else s1
+  let s1 := Buf.step (T v) s .start
+  if s1.kp.done then Buf.step (T v) s1 .finish else s1
 
 /-- the flush timer fires; when the flushed key ends the application, `await f` returns -/
-def timeoutEvB (s : BSt) : BSt :=
-  let s1 := Buf.step T s .timeout
-  if s1.kp.done && !s.kp.done then Buf.step T s1 .finish else s1
+def timeoutEvB (v : Nat) (s : BSt) : BSt :=
+  let s1 := Buf.step (T v) s .timeout
+  if s1.kp.done && !s.kp.done then Buf.step (T v) s1 .finish else s1
 
-def initB : BSt := Buf.St.init ⟨⟨[], 0⟩, false⟩
+def initB : BSt := Buf.St.init ⟨⟨[], 0⟩, false, false⟩
 
-def goB (k : Nat) : Nat → BSt → List String → Option BSt
+def goB (v k : Nat) : Nat → BSt → List String → Option BSt
   | 0, _, _ => none
   | fuel + 1, st, ts =>
     match ts with
     | [] => some st
-    | "s" :: ts => goB k fuel (if st.results.length < k then startEvB st else st) ts
-    | "f" :: ts => goB k fuel (Buf.step T st .finish) ts
-    | "t" :: ts => goB k fuel (timeoutEvB st) ts
+    | "s" :: ts => goB v k fuel (if st.results.length < k then startEvB v st else st) ts
+    | "f" :: ts => goB v k fuel (Buf.step (T v) st .finish) ts
+    | "t" :: ts => goB v k fuel (timeoutEvB v st) ts
     | "r" :: n :: ts =>
       match decNat n with
-      | some n => goB k fuel (Buf.step T st (.read n)) ts
+      | some n => goB v k fuel (Buf.step (T v) st (.read n)) ts
       | none => none
     | "w" :: n :: ts =>
       match decNat n with
       | some n =>
         match takeKeys n ts with
-        | some (ks, rest) => goB k fuel (Buf.step T st (.write ks)) rest
+        | some (ks, rest) => goB v k fuel (Buf.step (T v) st (.write ks)) rest
         | none => none
       | none => none
     | _ => none
@@ -182,47 +188,187 @@ def handle (toks : List String) : String :=
 
 end FL
 
-/-- driver state: the model state and the number of prompts the harness will start -/
-abbrev DS := (St × Nat) × B.BSt
+/-! fourth layer (`Ptk.C17.Paste` with the concrete generator over the regenerated sequence table):
+     Pinit k | PW s:<text> | PS | PR n | PF     and     PE2E k <events…> (w s:<text> | s | r n | f) -/
+namespace P
+open Ptk.C17.Paste
 
-def stepLineB (bs : B.BSt) (kmax : Nat) (toks : List String) : Option B.BSt :=
+abbrev PSt := Paste.St Text
+def N : Norm Text := Conc.norm Conc.genCfg
+def initP : PSt := Paste.St.init [] false
+
+def showP (s : PSt) : String :=
+  let pb : String := if s.ps.inPaste then encStr s.ps.pbuf else "-"
+  s!"{showSt s.l1} pm={encBool s.ps.inPaste} pb={pb} pre={encStr s.ps.nst}"
+
+/-- `start`; when the type-ahead already contained an accepting key the exit path runs at once -/
+def startEvP (s : PSt) : PSt :=
+  if s.l1.running || s.l1.exiting then s else
+  let s1 := Paste.step N s .start
+  if s1.l1.kp.done.isSome then Paste.step N s1 .finish else s1
+
+def goP (k : Nat) : Nat → PSt → List String → Option PSt
+  | 0, _, _ => none
+  | fuel + 1, st, ts =>
+    match ts with
+    | [] => some st
+    | "s" :: ts => goP k fuel (if st.l1.results.length < k then startEvP st else st) ts
+    | "f" :: ts => goP k fuel (Paste.step N st .finish) ts
+    | "r" :: n :: ts =>
+      match decNat n with
+      | some n => goP k fuel (Paste.step N st (.read n)) ts
+      | none => none
+    | "w" :: t :: ts =>
+      match decStr t with
+      | some t => goP k fuel (Paste.step N st (.write t)) ts
+      | none => none
+    | _ => none
+
+def stepLineP (ps : PSt) (kmax : Nat) (toks : List String) : Option PSt :=
+  match toks with
+  | ["PW", t] => (decStr t).map fun t => Paste.step N ps (.write t)
+  | ["PS"] => some (if ps.l1.results.length < kmax then startEvP ps else ps)
+  | ["PR", n] => (decNat n).map fun n => Paste.step N ps (.read n)
+  | ["PF"] => some (Paste.step N ps .finish)
+  | _ => none
+
+/-- results and everything unconsumed (type-ahead, queue, what pipe + parser still deliver) -/
+def finalP (st : PSt) : String :=
+  let left := st.l1.typeahead ++ dropCpr st.l1.kp.queue ++ dropCpr (Paste.parse N st.ps st.bytes).2
+  s!"run={encBool st.l1.running} res={encList encRes st.l1.results} left={encKeys left}"
+
+end P
+
+/-! fifth layer (`Ptk.C17.Store`: several inputs, one type-ahead store keyed by hash):
+     Minit kA kB | MW h n k1..kn | MS h | MR h n | MF h      (h = 0 | 1)
+     reply: the state of both inputs;   MEND: results and unconsumed keys of both inputs -/
+namespace M
+open Ptk.C17.Store
+
+structure MSt where
+  sys : Sys
+  k0 : Nat
+  k1 : Nat
+
+def initM (k0 k1 : Nat) : MSt := ⟨Sys.init, k0, k1⟩
+
+def showM (m : MSt) : String := s!"A[{showSt (m.sys.proj 0)}] B[{showSt (m.sys.proj 1)}]"
+
+def startEvM (y : Sys) (h : Hash) : Sys :=
+  let s := y.proj h
+  if s.running || s.exiting then y else
+  let y1 := y.step h .start
+  if (y1.proj h).kp.done.isSome then y1.step h .finish else y1
+
+/-- the harness awaits at `S` and `F` events: the event loop then runs every application whose
+    result is set to its end, on whichever input it is -/
+def settle (y : Sys) : Sys := (y.step 0 .finish).step 1 .finish
+
+def finalOf (s : St) : String :=
+  let left := s.typeahead ++ dropCpr s.kp.queue ++ dropCpr s.pipe
+  s!"res={encList encRes s.results} left={encKeys left}"
+
+def stepLineM (m : MSt) (toks : List String) : Option (MSt × String) :=
+  let kOf (h : Nat) : Nat := if h = 0 then m.k0 else m.k1
+  let ret (y : Sys) : Option (MSt × String) := some ({ m with sys := y }, showM { m with sys := y })
+  match toks with
+  | ["Minit", a, b] =>
+    match decNat a, decNat b with
+    | some a, some b => some (initM a b, showM (initM a b))
+    | _, _ => none
+  | "MW" :: h :: n :: rest =>
+    match decNat h, decNat n with
+    | some h, some n =>
+      match takeKeys n rest with
+      | some (ks, []) => ret (m.sys.step h (.write ks))
+      | _ => none
+    | _, _ => none
+  | ["MS", h] =>
+    (decNat h).bind fun h =>
+      -- (the harness lets finished applications leave BEFORE it starts the new prompt: while a
+      --  started prompt has unread bytes in its pipe the harness must not await)
+      let y := settle m.sys
+      ret (if (y.proj h).results.length < kOf h then startEvM y h else y)
+  | ["MR", h, n] =>
+    match decNat h, decNat n with
+    | some h, some n => ret (m.sys.step h (.read n))
+    | _, _ => none
+  | ["MF", h] => (decNat h).bind fun h => ret (settle (m.sys.step h .finish))
+  | ["MEND"] => some (m, s!"A[{finalOf (m.sys.proj 0)}] B[{finalOf (m.sys.proj 1)}]")
+  | _ => none
+
+end M
+
+/-- driver state: the model state and the number of prompts the harness will start -/
+abbrev DS := (((St × Nat) × (B.BSt × Nat)) × P.PSt) × M.MSt
+
+def stepLineB (v : Nat) (bs : B.BSt) (kmax : Nat) (toks : List String) : Option B.BSt :=
   match toks with
   | "BW" :: n :: rest =>
     match decNat n with
     | some n =>
       match takeKeys n rest with
-      | some (ks, []) => some (Buf.step B.T bs (.write ks))
+      | some (ks, []) => some (Buf.step (B.T v) bs (.write ks))
       | _ => none
     | none => none
-  | ["BS"] => some (if bs.results.length < kmax then B.startEvB bs else bs)
-  | ["BR", n] => (decNat n).map fun n => Buf.step B.T bs (.read n)
-  | ["BT"] => some (B.timeoutEvB bs)
-  | ["BF"] => some (Buf.step B.T bs .finish)
+  | ["BS"] => some (if bs.results.length < kmax then B.startEvB v bs else bs)
+  | ["BR", n] => (decNat n).map fun n => Buf.step (B.T v) bs (.read n)
+  | ["BT"] => some (B.timeoutEvB v bs)
+  | ["BF"] => some (Buf.step (B.T v) bs .finish)
   | _ => none
 
-def stepLine (ds : DS) (toks : List String) : DS × String :=
+abbrev DS3 := ((St × Nat) × (B.BSt × Nat)) × P.PSt
+
+def stepLine3 (ds0 : DS3) (toks : List String) : DS3 × String :=
+  let ds := ds0.1
+  let pst := ds0.2
   let s := ds.1.1
   let kmax := ds.1.2
-  let ret (s' : St) : DS × String := (((s', kmax), ds.2), showSt s')
-  let bad : DS × String := (ds, "bad-op")
+  let ret (s' : St) : DS3 × String := ((((s', kmax), ds.2), pst), showSt s')
+  let bad : DS3 × String := (ds0, "bad-op")
   match toks with
   | ["init", k, r] =>
     match decNat k, decBool r with
-    | some k, some r => (((St.init r, k), ds.2), showSt (St.init r))
+    | some k, some r => ((((St.init r, k), ds.2), pst), showSt (St.init r))
     | _, _ => bad
   | ["Binit", k] =>
     match decNat k with
-    | some k => (((s, k), B.initB), B.showB B.initB)
+    | some k => ((((s, k), (B.initB, 0)), pst), B.showB B.initB)
     | none => bad
+  | ["BinitV", k, v] =>                  -- a session with validator number v
+    match decNat k, decNat v with
+    | some k, some v => ((((s, k), (B.initB, v)), pst), B.showB B.initB)
+    | _, _ => bad
+  | ["Pinit", k] =>
+    match decNat k with
+    | some k => ((((s, k), ds.2), P.initP), P.showP P.initP)
+    | none => bad
+  | "PE2E" :: k :: evs =>
+    match decNat k with
+    | none => bad
+    | some k =>
+      match P.goP k (evs.length + 1) P.initP evs with
+      | some st => (ds0, P.finalP st)
+      | none => bad
+  | "BE2EV" :: k :: v :: evs =>
+    match decNat k, decNat v with
+    | some k, some v =>
+      match B.goB v k (evs.length + 1) B.initB evs with
+      | some st =>
+        let left := st.kp.buffer.map some ++ st.typeahead ++ Buf.dropCprQ st.kp.queue ++ (dropCpr st.pipe).map some
+        let left := left.filter (fun q => q.isSome)
+        (ds0, s!"run={encBool st.running} res={encList B.encResB st.results} left={encList B.encQK left}")
+      | none => bad
+    | _, _ => bad
   | "BE2E" :: k :: evs =>
     match decNat k with
     | none => bad
     | some k =>
-      match B.goB k (evs.length + 1) B.initB evs with
+      match B.goB 0 k (evs.length + 1) B.initB evs with
       | some st =>
         let left := st.kp.buffer.map some ++ st.typeahead ++ Buf.dropCprQ st.kp.queue ++ (dropCpr st.pipe).map some
         let left := left.filter (fun q => q.isSome)
-        (ds, s!"run={encBool st.running} res={encList B.encResB st.results} left={encList B.encQK left}")
+        (ds0, s!"run={encBool st.running} res={encList B.encResB st.results} left={encList B.encQK left}")
       | none => bad
   | "W" :: n :: rest =>
     match decNat n with
@@ -239,7 +385,7 @@ def stepLine (ds : DS) (toks : List String) : DS × String :=
   | ["F"] => ret (step s .finish)
   | ["E"] => ret (endWaitEv s)
   | ["A"] => ret s                       -- virtual time passes: nothing in the first layer
-  | "FL" :: rest => (ds, FL.handle rest)
+  | "FL" :: rest => (ds0, FL.handle rest)
   | "E2E" :: k :: r :: evs =>
     match decNat k, decBool r with
     | none, _ => bad
@@ -269,11 +415,21 @@ def stepLine (ds : DS) (toks : List String) : DS × String :=
       match go (evs.length + 1) (St.init r) evs with
       | some st =>
         let left := st.typeahead ++ dropCpr st.kp.queue ++ dropCpr st.pipe
-        (ds, s!"run={encBool st.running} res={encList encRes st.results} left={encKeys left}")
+        (ds0, s!"run={encBool st.running} res={encList encRes st.results} left={encKeys left}")
       | none => bad
   | _ =>
-    match stepLineB ds.2 kmax toks with
-    | some bs => ((ds.1, bs), B.showB bs)
-    | none => bad
+    match P.stepLineP pst kmax toks with
+    | some ps => ((ds, ps), P.showP ps)
+    | none =>
+      match stepLineB ds.2.2 ds.2.1 kmax toks with
+      | some bs => (((ds.1, (bs, ds.2.2)), pst), B.showB bs)
+      | none => bad
 
-def main : IO Unit := runS stepLine ((St.init false, 0), B.initB)
+def stepLine (dsM : DS) (toks : List String) : DS × String :=
+  match M.stepLineM dsM.2 toks with
+  | some (m, r) => ((dsM.1, m), r)
+  | none =>
+  let (r1, out) := stepLine3 dsM.1 toks
+  ((r1, dsM.2), out)
+
+def main : IO Unit := runS stepLine ((((St.init false, 0), (B.initB, 0)), P.initP), M.initM 0 0)
